@@ -11,7 +11,7 @@ import os, json, itertools, subprocess, shutil
 from lib.common import Ctx, Build, Scratch, InfraError, pmap
 from lib import emusrv, obs, pv
 from lib.emusrv import Ev, Fin, i32, i64
-from lib.explore import ServerPool, Explorer, Ref, short_hist
+from lib.explore import ServerPool, Explorer, Ref, short_hist, bind_shallow
 from checks.c08 import PrefixPool
 from checks.threadcpu import ACTIVE
 
@@ -289,6 +289,8 @@ def run_emulator(ctx, build, scratch, tier):
             ex = Explorer(ctx, pp, ref, name="walk-%s-%s" % (kind, who), report_props={"C17"}, check_time=False,
                           max_depth=(4 if tier == "quick" else 6), max_states=(3000 if tier == "quick" else 40000))
             st = ex.run()
+            if not ctx.nviol:
+                bind_shallow(ctx, build, system, pool, ex, "walk-%s-%s" % (kind, who), emu_flags=(), limit=(100 if tier == "quick" else 600))
             ctx.sample({"walk": "%s/%s" % (kind, who), "states": st["states"], "probes": st["probes"]})
         finally:
             pool.close()
